@@ -251,7 +251,14 @@ func libraryGoroutines(dump string) []string {
 			if len(top) > 5 {
 				top = top[:5]
 			}
-			out = append(out, "["+g.state+"] "+strings.Join(top, " < "))
+			first := ""
+			for _, f := range g.frames {
+				if strings.Contains(f, "fullstorydev/grpchan/") {
+					first = f
+					break
+				}
+			}
+			out = append(out, "["+g.state+"] "+strings.Join(top, " < ")+" ... < "+first)
 		}
 	}
 	return out
